@@ -121,7 +121,7 @@ def strip(c):
 def run(tier):
     rep = core.Report("C16", tier)
     quick = tier == "quick"
-    cfgs = ["cut3", "gab3s1"] if quick else ["cut3", "gab3s1", "gab4s1", "gab4s2", "cut4"]
+    cfgs = ["cut3", "gab3s1", "gab3s1_periodic"] if quick else ["cut3", "gab3s1", "gab3s1_periodic", "cut3_periodic", "gab4s1", "gab4s2", "cut4"]
     for cfg in cfgs:
         r = core.model_check("QuickShiftAlg.tla", "mc/QuickShiftAlg_%s.cfg" % cfg, coverage=(cfg != "cut4"), timeout=4 * 3600, heap="32g")
         rep.add_mc("QuickShiftAlg[%s]: code-shaped ascent/propagation => valid labelling, all lattice inputs x weight orders x cut-offs" % cfg, r)
